@@ -11,7 +11,7 @@ use crate::store::read_frames;
 use rip_log::EventLog;
 use ripd::{
     CompactionAutoV1Request, CompactionCheckpointCumulativeV1Request, CompactionCutPointsV1Request, CompactionStatusV1Request, ContextSelectionStatusV1Request, ContinuityRunLink,
-    ContinuityStore, ProviderCursorStatusV1Request, ToolSideEffects,
+    ContinuityStore, CompactionAutoScheduleV1Request, ProviderCursorRotateV1Request, ProviderCursorStatusV1Request, ToolSideEffects,
 };
 use serde_json::{json, Value};
 use std::collections::BTreeMap;
@@ -146,9 +146,11 @@ pub struct Queries {
     pub stride: u64,
     pub limit: u32,
     pub anchors: Vec<String>,
+    /// endpoint filter of the second rotate query
+    pub rotate_endpoint: Option<String>,
 }
 
-const QUERY_NAMES: &[&str] = &["replay", "cut_points", "compaction_status", "cursor_status", "selection_status", "compile", "branch_cut", "handoff_cut", "list_default"];
+const QUERY_NAMES: &[&str] = &["replay", "cut_points", "compaction_status", "cursor_status", "cursor_rotate", "selection_status", "compile", "branch_cut", "handoff_cut", "list_default"];
 
 /// every read capability on a fresh store over `data_dir`; values are canonical JSON
 fn answers(data_dir: &Path, ws: &Path, thread: &str, q: &Queries, only: Option<&str>) -> BTreeMap<String, Value> {
@@ -190,6 +192,25 @@ fn answers(data_dir: &Path, ws: &Path, thread: &str, q: &Queries, only: Option<&
     if want("cursor_status") {
         let (s, t) = (store.clone(), t.clone());
         if !put("cursor_status", capped(move || s.provider_cursor_status_v1(&t, ProviderCursorStatusV1Request {}).map(|r| serde_json::to_value(r).unwrap()).unwrap_or_else(|e| json!({"error": e}))), &mut out) {
+            return out;
+        }
+    }
+    if want("cursor_rotate") {
+        // the rotation target: which active cursor a rotate request would retire (it writes: this
+        // directory is a scratch copy). Asked with a provider filter and with a provider + endpoint filter.
+        let (s, t, ep) = (store.clone(), t.clone(), q.rotate_endpoint.clone());
+        let r = capped(move || {
+            let mut v = Vec::new();
+            for endpoint in [None, ep] {
+                let r = s.provider_cursor_rotate_v1(&t, ProviderCursorRotateV1Request { provider: Some("openresponses".into()), endpoint: endpoint.clone(), model: None, reason: Some("r".into()), actor_id: "u".into(), origin: "cli".into() });
+                v.push(match r {
+                    Ok(x) => json!({"rotated": x.rotated, "provider": x.provider, "endpoint": x.endpoint, "model": x.model}),
+                    Err(e) => json!({"error": e}),
+                });
+            }
+            Value::Array(v)
+        });
+        if !put("cursor_rotate", r, &mut out) {
             return out;
         }
     }
@@ -300,6 +321,10 @@ fn grow(store: &ContinuityStore, thread: &str, rng: &mut Rng, n: usize, h: &mut 
                 let m = rng.pick(&h.msgs).clone();
                 let _ = store.compaction_checkpoint_cumulative_v1(thread, CompactionCheckpointCumulativeV1Request { summary_markdown: Some(format!("summary up to {m}")), summary_artifact_id: None, to_message_id: Some(m), to_seq: None, stride_messages: None, actor_id: "u".into(), origin: "cli".into() });
             }
+            11 if h.msgs.len() >= 3 => {
+                // a schedule decision (and possibly a job left in flight): compaction status reports the last one
+                let _ = store.compaction_auto_schedule_v1(thread, CompactionAutoScheduleV1Request { stride_messages: Some(rng.range(1, 3)), max_new_checkpoints: Some(1), block_on_inflight: Some(rng.chance(1, 2)), execute: Some(rng.chance(1, 2)), dry_run: Some(false), actor_id: "u".into(), origin: "cli".into() });
+            }
             10 if h.msgs.len() >= 4 => {
                 let _ = store.compaction_auto_v1(thread, CompactionAutoV1Request { stride_messages: Some(rng.range(2, 4)), max_new_checkpoints: Some(2), dry_run: Some(false), actor_id: "u".into(), origin: "cli".into() });
             }
@@ -365,7 +390,7 @@ fn one_case(rep: &mut Report, model: &mut Model, rng: &mut Rng, case_no: u64, si
     if with_child {
         let _ = store.branch(&thread, Some("child".into()), None, None, "u".into(), "cli".into());
     }
-    let q = Queries { stride: rng.range(1, 4), limit: *rng.pick(&[1u32, 3, 5, 10, 50]), anchors: vec![h.msgs.last().unwrap().clone(), h.msgs[h.msgs.len() / 2].clone(), h.msgs[0].clone()] };
+    let q = Queries { stride: rng.range(1, 4), limit: *rng.pick(&[1u32, 3, 5, 10, 50]), anchors: vec![h.msgs.last().unwrap().clone(), h.msgs[h.msgs.len() / 2].clone(), h.msgs[0].clone()], rotate_endpoint: Some(format!("http://e{}", rng.below(3))) };
     rep.evaluations += 1;
     rep.count(&format!("histories_{size}"));
     let frames_now = read_frames(&data_dir.join("events.jsonl")).len();
